@@ -93,7 +93,7 @@ class JsonObjectConst : public detail::VariantOperators<JsonObjectConst> {
   ARDUINOJSON_DEPRECATED("use obj[key].is<T>() instead")
   detail::enable_if_t<detail::IsVariant<TVariant>::value, bool> containsKey(
       const TVariant& key) const {
-    return containsKey(key.template as<const char*>());
+    return containsKey(key.template as<JsonString>());
   }
 
   // Gets the member with specified key.
@@ -122,7 +122,7 @@ class JsonObjectConst : public detail::VariantOperators<JsonObjectConst> {
   detail::enable_if_t<detail::IsVariant<TVariant>::value, JsonVariantConst>
   operator[](const TVariant& key) const {
     if (key.template is<const char*>())
-      return operator[](key.template as<const char*>());
+      return operator[](key.template as<JsonString>());
     else
       return JsonVariantConst();
   }
